@@ -2,10 +2,12 @@ package props
 
 import (
 	"fmt"
+	"strconv"
 	"strings"
 
 	"verifharness/fw"
 	"verifharness/gen"
+	"verifharness/model"
 )
 
 // C05 — expressions evaluate to the documented values.
@@ -55,7 +57,65 @@ func (p *c05) Init(tier string, seed int64) {
 	}
 }
 
-func (p *c05) N() int { return len(p.table) + p.nRand }
+func (p *c05) N() int { return len(p.table) + p.nRand + len(c05RangeBounds)*len(c05RangeBounds) }
+
+// c05RangeBounds: l..r for every ordered pair. For integer bounds the elements are l, l±1, ..., r exactly; for
+// fractional bounds the statements do not give the elements, but "inclusive range" still means: it starts at l,
+// moves in unit steps towards r, never passes r and stops only when the next step would.
+var c05RangeBounds = []float64{-3, -1.5, -1, 0, 0.5, 1, 1.5, 2, 2.5, 4, 4.5, 7}
+
+func (p *c05) runRange(res *fw.Result, j int) {
+	l, r := c05RangeBounds[j/len(c05RangeBounds)], c05RangeBounds[j%len(c05RangeBounds)]
+	lit := func(f float64) gen.Expr {
+		if f < 0 {
+			return &gen.EGroup{X: &gen.EUn{Op: "-", X: &gen.ENum{Text: model.FmtNum(-f)}}}
+		}
+		return &gen.ENum{Text: model.FmtNum(f)}
+	}
+	loop := &gen.NFor{Val: "i", Seq: &gen.EGroup{X: &gen.EBin{Op: "..", L: lit(l), R: lit(r)}}, Body: []gen.Node{pr(nm("i")), tx(",")}}
+	prog := mkProg(nil, loop)
+	lib := runLib(prog, gen.Canon{}, false)
+	key := fmt.Sprintf("c05:range:%v..%v", l, r)
+	res.AddClass("range")
+	res.UniqueNT = 1
+	if lib.pan != nil || lib.err != nil {
+		res.Fail("range", key, fmt.Sprintf("{%% for i in %v..%v %%}: error %v, panic %v", l, r, lib.err, lib.pan), prog.describe())
+		return
+	}
+	var els []float64
+	for _, f := range strings.Split(strings.TrimSuffix(lib.out, ","), ",") {
+		v, err := strconv.ParseFloat(f, 64)
+		if err != nil {
+			res.Fail("range", key, fmt.Sprintf("%v..%v rendered %q", l, r, lib.out), prog.describe())
+			return
+		}
+		els = append(els, v)
+	}
+	step := 1.0
+	if r < l {
+		step = -1
+	}
+	bad := ""
+	switch {
+	case len(els) == 0 || els[0] != l:
+		bad = "does not start at the left bound"
+	default:
+		for i, e := range els {
+			if i > 0 && e != els[i-1]+step {
+				bad = fmt.Sprintf("element %d is not one step after element %d", i, i-1)
+			}
+			if (step > 0 && e > r) || (step < 0 && e < r) {
+				bad = fmt.Sprintf("element %v lies beyond the right bound", e)
+			}
+		}
+		if last := els[len(els)-1] + step; bad == "" && ((step > 0 && last <= r) || (step < 0 && last >= r)) {
+			bad = fmt.Sprintf("stops at %v although %v is still within the bounds", els[len(els)-1], last)
+		}
+	}
+	if bad != "" {
+		res.Fail("range", key, fmt.Sprintf("%v..%v gives %v: %s", l, r, els, bad), prog.describe())
+	}
+}
 
 func (p *c05) build(i, attempt int) (*Program, gen.Expr) {
 	g := &gen.ExprGen{Callbacks: true}
@@ -180,6 +240,10 @@ func exprShape(e gen.Expr, b *strings.Builder, depth int) int {
 }
 
 func (p *c05) Run(i int) (res fw.Result) {
+	if i >= len(p.table)+p.nRand {
+		p.runRange(&res, i-len(p.table)-p.nRand)
+		return
+	}
 	for attempt := 0; attempt < 30; attempt++ {
 		prog, e := p.build(i, attempt)
 		mod, _, inRegion, _ := runModel(prog)
@@ -221,12 +285,13 @@ func (p *c05) Run(i int) (res fw.Result) {
 }
 
 func (p *c05) Rule() string {
-	return fmt.Sprintf("cases: exhaustive depth-1 table (%d binary operators x 28x28 operand forms, 3 unary operators, conditional) filtered by the reference model's agreement region, plus seeded typed random expression trees (depth<=4 quick, <=6 thorough) over literals, context variables carried by different Go numeric types, arrays, single-entry hashes, interpolation, attribute access and recording functions/filters/tests; every third random tree is evaluated three times in one execution (in a loop that re-assigns n1, s1, pat and t), so that its nodes are re-evaluated under other values; every tree is spelled fully parenthesised (odd cases with random white space, quotes and trailing commas between the tokens), rendered through a recording core environment and compared with the reference evaluator on printed value, error-or-not and the exact callback log (name, argument values in order, piped value first, template name). Trees the model refuses (outside the agreement region: zero divisors, non-dyadic quotients, |result|>=10^6, mixed-type equality, negative numbers or \"0\" in boolean context, string haystacks) are regenerated. Non-trivial = depth>=2 or >=1 callback; distinct = expression shape with operators, variable names and literal classes.", len(c05BinOps))
+	return fmt.Sprintf("cases: exhaustive depth-1 table (%d binary operators x 28x28 operand forms, 3 unary operators, conditional) filtered by the reference model's agreement region, plus seeded typed random expression trees (depth<=4 quick, <=6 thorough) over literals, context variables carried by different Go numeric types, arrays, single-entry hashes, interpolation, attribute access and recording functions/filters/tests; every third random tree is evaluated three times in one execution (in a loop that re-assigns n1, s1, pat and t), so that its nodes are re-evaluated under other values; every tree is spelled fully parenthesised (odd cases with random white space, quotes and trailing commas between the tokens), rendered through a recording core environment and compared with the reference evaluator on printed value, error-or-not and the exact callback log (name, argument values in order, piped value first, template name). Plus l..r for every ordered pair of 12 bounds (negative, zero, integral, fractional; ascending and descending) against the invariants of an inclusive range. Trees the model refuses (outside the agreement region: zero divisors, non-dyadic quotients, |result|>=10^6, mixed-type equality, negative numbers or \"0\" in boolean context, string haystacks) are regenerated. Non-trivial = depth>=2 or >=1 callback; distinct = expression shape with operators, variable names and literal classes.", len(c05BinOps))
 }
 
 func (p *c05) Assumptions() []string {
 	return []string{
 		"the reference evaluator encodes the documented semantics (numbers are float64, % truncates and takes the dividend's sign, // floors, == compares coerced values, and/or/not use boolean coercion)",
+		"ranges with a fractional bound are held to the invariants of an inclusive range only (start at the left bound, unit steps towards the right bound, never beyond it, maximal), not to an element list",
 		"callbacks never sit in the right operand of and/or (stick evaluates it eagerly, Twig lazily)",
 	}
 }
